@@ -158,10 +158,42 @@ def raft_run(ctx, note=True):
     return res
 
 
+FRAGMENT = ('core fragment of Props/TierC.v: static membership, no dump file, 1 < batch, every command smaller than a batch, '
+            'serializer idle (no compaction, no snapshot install), voters never restart; read-only nodes, drops, losses, any clocks allowed')
+PARTIAL = {
+    'C01': ['state-machine safety across nodes is a theorem only for the ' + FRAGMENT + '; with compaction, snapshot install, chunked '
+            'entries, membership change or restarts it rests on the handler-level theorems, the correspondence and the monitor'],
+    'C02': ['"SUCCESS means committed exactly once and never undone" is proved per handler (C02_success_local, outcome origin) and, through '
+            'committed-entries-never-change, for the ' + FRAGMENT + '; elsewhere: correspondence + monitor'],
+    'C03': ['election safety: all runs with static membership, no dump file, no restart of voters; leader completeness: ' + FRAGMENT],
+    'C04': ['majority-backed commit and log matching across nodes: ' + FRAGMENT + '; applied index monotone: every message handler and '
+            'every tick except the restart path (first tick after a restart loads the dump)'],
+    'C05': ['liveness under randomised election timeouts is not proved; convergence is searched for (quiet period after fault histories), '
+            'the named sub-properties are theorems'],
+    'C06': ['kills inside one storage primitive, power loss and fsync are not modelled; kills between primitives inside a step run on the '
+            'implementation under the monitor only (the model steps are atomic)'],
+    'C07': ['the restart clauses of the property are false of the code (term and vote are not persisted): refuted with witnesses, listed '
+            'as KF-C07-1/2; without restarts one vote per term and term monotone are theorems'],
+    'C09': ['fork mode and user-supplied serializer functions: implementation under the monitors only'],
+    'C10': ['joint safety under membership change (C10_safety_under_change_full) is not proved: gate, one pending change, member set = fold '
+            'of the log, single-change majorities intersect are theorems; dynamic membership together with journal files and member '
+            'restarts is outside the generators'],
+    'C12': [],
+    'C18': ['non-interference of read-only nodes is refuted in one respect (a voter whose only connection is an observer starts '
+            'elections: C18_noninterference_refuted) and proved for the leader phase; what the property states (no vote, no leadership, '
+            'never counted) is proved for all reachable states'],
+    'C20': ['the SUCCESS-callback part of "no commit while cut off" is proved as a commit-index bound only; two state hypotheses of '
+            'C20_bound (leader has a match/last-response slot for every member) are hypotheses'],
+}
+
+
 def account(ctx, res, props, by_generator=None):
     """fill ctx.correspondence / monitor stats and report monitor records of the given properties;
     by_generator: {generator: extra properties whose records count for this check in traces of that generator}"""
     by_generator = by_generator or {}
+    for x in PARTIAL.get(ctx.pid, []):
+        if x not in ctx.partial:
+            ctx.partial.append(x)
     st = ctx.corr(COMPONENT)
     kinds = {}
     stats = {}
